@@ -26,6 +26,7 @@ Section Bridge.
     bisect P pr maxvol x g (S fuel) l1 l2 last =
     if gen_while_test P (l1l2tol pr) l1 l2 then
       let lmid := gen_lmid P l1 l2 in
+      if gen_guard_test P l1 l2 lmid then BisDone l1 l2 last else
       let xn := map (fun q => match q with (i, (xi, gi)) =>
                        gen_oc_elem P lmid (move pr) (bget P (bmin pr) i) (bget P (bmax pr) i) xi gi end)
                     (combine (seq 0 (length x)) (combine x g)) in
@@ -33,9 +34,10 @@ Section Bridge.
       bisect P pr maxvol x g fuel (fst ab) (snd ab) (Some xn)
     else BisDone l1 l2 last.
   Proof.
-    cbn [bisect]. unfold gen_while_test, gen_bis_update, gen_lmid.
+    cbn [bisect]. unfold gen_while_test, gen_bis_update, gen_lmid, gen_guard_test.
     destruct (oltb P (l1l2tol pr) (osub P l2 l1)); [|reflexivity].
-    cbn zeta. fold (oc_xnew P pr (omul P (ohalf P) (oadd P l1 l2)) x g).
+    cbn zeta. destruct (_ || _); [reflexivity|].
+    fold (oc_xnew P pr (omul P (ohalf P) (oadd P l1 l2)) x g).
     destruct (oltb P (o0 P) _); reflexivity.
   Qed.
 
@@ -93,4 +95,8 @@ Section Bridge.
 End Bridge.
 
 Lemma gen_default_params_eq : gen_default_params = default_params.
+Proof. reflexivity. Qed.
+
+(* the cap of the bracket-growing loop *)
+Lemma gen_huge_eq : gen_huge = ohuge FloatOOps.
 Proof. reflexivity. Qed.
